@@ -40,6 +40,8 @@ def run(ctx):
                         "N: quantitative end-to-end equality on concrete trees"]
     spec = S.load()
     _shared(ctx)
+    from . import c04 as _c04
+    _c04.c04_2(ctx, _c04.load(), R="C01.4")
     c01_1(ctx, spec)
     c01_2(ctx, spec, rule="C01.2")
     c01_3(ctx, spec)
@@ -50,8 +52,7 @@ def run(ctx):
 
 
 # ------------------------------------------------------------------ C01.1
-def c01_1(ctx, spec):
-    R = "C01.1"
+def c01_1(ctx, spec, R="C01.1"):
     fb = ctx.fb
     want = {r["op"]: r["name"] for r in spec["rows"]}
     # opcode constants of the crate == rows of the table (both ways)
@@ -179,8 +180,7 @@ def _diff(got, exp):
 
 
 # ------------------------------------------------------------------ C01.3
-def c01_3(ctx, spec):
-    R = "C01.3"
+def c01_3(ctx, spec, R="C01.3"):
     sz = spec["sizes"]
 
     def table(path, want=("Ok",), **kw):
